@@ -110,7 +110,9 @@ def gen_plan(rng, tier, index, config=None):
             kind = r.weighted([("item", 3), ("hash160", 2), ("address", 2), ("spendable", 2), ("txid_of_block", 3 if nblocks else 0)])
             st = {"op": "watch", "kind": kind, "data": r.bytes(r.pick([0, 1, 3, 4, 5, 20, 32, 33, 36, 65])).hex()}
             if kind in ("hash160", "address"):
-                st["data"] = r.bytes(20).hex()
+                # (shapes: a hash beginning with zero bytes gives an address with several leading '1's)
+                st["data"] = r.weighted([(r.bytes(20), 6), (b"\0" + r.bytes(19), 1.5), (bytes(3) + r.bytes(17), 0.5), (bytes(20), 0.3),
+                                         (r.bytes(19) + b"\0", 0.5)]).hex()
             elif kind == "spendable":
                 st["data"] = r.bytes(32).hex()
                 st["idx"] = r.pick([0, 1, 0xFFFFFFFF, r.bits(32)])
